@@ -43,6 +43,12 @@ CHECKS = {
         text="TLC computes ciphertext and tag for (IV length 1..64 incl. all-0xff IVs and an IV it constructs so that the 32-bit counter wraps) x (AAD, plaintext) lengths 0..80 (all pairs in thorough, boundary grid + seeded sample in quick); the helper must return exactly these, decrypt the specification's ciphertext to exactly the plaintext, agree with the standard library GCM over the same block cipher, leave caller memory untouched, and change the recomputed tag under every single-bit change of IV, AAD and ciphertext.",
         note="Exploration over enumerated lengths and three content families; trusts TLC + Bitwise and SM4.tla. GCM.tla itself is cross-checked on every case against crypto/cipher's GCM over the real block cipher.",
         ref="DESIGN.md section 5 C12"),
+    "C15": dict(
+        level="fault_enumeration",
+        technique="TLA+ spec TLCPPeer (endpoint flight grammar as a state machine + one peer deviation), every (role, position, deviation) explored by TLC to its verdict; each case realised by a message-level interposer between the endpoint under test and an honest gmtls peer",
+        text="TLC enumerates 2.3k cases over 6 endpoint roles (GM client, GM-only server, auto-switch server under GM and TLS, TLS client, TLS server) x client auth on/off x every position of the plaintext flight x {drop, duplicate, swap, inject or substitute each of 16 message kinds incl. RSA certificates where SM2 ones belong, 9 truncations / length-field perturbations, ChangeCipherSpec, application data, warning and fatal alerts, end of stream, ClientHello rewritten to 12 versions / 6 suite lists / no null compression}; the real endpoint must return an error, never report completion, never panic, and return once its input has ended; benign variations (re-fragmentation, a warning alert) must still complete.",
+        note="Deviations are single ops applied to an otherwise honest flight (no keys are needed: the plaintext phase); encrypted-phase deviations (wrong Finished, records after CCS) are covered by C07/C08. Trusts the interposer's handshake-message reassembly. Hang detection: input ended after 0.6 s of silence, then 3 s to return.",
+        ref="DESIGN.md section 5 C15"),
     "C19": dict(
         level="model_checking",
         technique="TLA+ spec PadStream + refinement PadStreamImpl checked by TLC; TLC-generated environments replayed on the real objects; recorded traces validated by TLC (PadStreamTrace)",
